@@ -590,6 +590,14 @@ func c02NoAlias(e *Env) {
 							nCopy++
 							continue
 						}
+					case "append":
+						// append(own[:0], data...): the bytes are copied into the message's own backing array
+						if len(u.Call.Args) == 2 && u.Call.Args[1] == data {
+							if sl, isSl := u.Call.Args[0].(*ssa.Slice); isSl && isFieldLoad(sl.X, "bufferUnmarshal") {
+								nCopy++
+								continue
+							}
+						}
 					}
 				}
 				// a helper analysed as part of this function: follow the parameter the buffer is bound to
